@@ -58,6 +58,9 @@ type EngCase struct {
 	Query       Tup
 	FaultKind   int  // not part of the protocol: which error value the injected fault returns
 	ViaOPL      bool // not part of the protocol: the configuration was accepted by the real OPL parser/type checker
+	// not part of the protocol: called once with the rows in storage order, returns one more
+	// tuple to store (a membership placed relative to the storage order, e.g. at a page boundary)
+	BoundaryMember func(stored []Tup) *Tup
 }
 
 func b2i(b bool) int {
